@@ -12,7 +12,7 @@ _CUTS = floatcut.install(B, ['blacklisted_binning'])
 BT.blacklisted_binning_contigs.__globals__['blacklisted_binning'] = B.blacklisted_binning
 
 _contig_block = astcut.cut_if(BT, 'tag_multiome_multi_processing', 'one_contig_per_process', 'body',
-                              params=('get_contigs_with_reads', 'input_bam_path'), result='job_gen', name='_contig_jobs')
+                              params=('get_contigs_with_reads', 'input_bam_path', 'contig_whitelist', 'contig_restricted'), result='job_gen', name='_contig_jobs')
 _region_block_raw = astcut.cut_if(BT, 'tag_multiome_multi_processing', 'one_contig_per_process', 'orelse',
                                   params=('input_bam_path', 'bp_per_segment', 'fragment_size', 'bp_per_job', 'contig_whitelist', 'blacklist_path'),
                                   result='job_gen', name='_region_jobs')
@@ -25,9 +25,10 @@ def _region_block(contig_sizes, bin_size, F, bp_per_job, whitelist):
 NAMES = ['c0', 'c1', 'c2', 'c3', 'c4']
 
 
-def _l1_contig_jobs(n: int, l0: int, l1: int, l2: int, l3: int, l4: int, star: int) -> bool:
+def _l1_contig_jobs(n: int, l0: int, l1: int, l2: int, l3: int, l4: int, star: int, sel: int) -> bool:
     """
     pre: 0 <= n <= 5
+    pre: -1 <= sel <= 4
     pre: l0 >= 1 and l1 >= 1 and l2 >= 1 and l3 >= 1 and l4 >= 1
     pre: -1 <= star <= n
     post: _
@@ -35,7 +36,9 @@ def _l1_contig_jobs(n: int, l0: int, l1: int, l2: int, l3: int, l4: int, star: i
     contigs = [(NAMES[i], l) for i, l in enumerate([l0, l1, l2, l3, l4][:n])]
     if star >= 0:
         contigs.insert(star, ('*', 0))
-    return S.check_contig_jobs(_contig_block, contigs) is None
+    # sel: -1 = no -contig option, otherwise the selected contig (which may have no reads: index >= n)
+    restrict = None if sel < 0 else pick(NAMES, sel)
+    return S.check_contig_jobs(_contig_block, contigs, restrict) is None
 
 
 BIG_NAMES = ['k%02d' % i for i in range(14)]
